@@ -4,5 +4,6 @@ CONSTANTS
   MaxArity = 5
   Stride = 400
   Offset = 0
+  Reduced = FALSE
 INVARIANT SigOK
 CHECK_DEADLOCK FALSE
